@@ -12,17 +12,48 @@ def inf64 : Float := Float.ofBits 0x7ff0000000000000
 /-- `F::cast(100.) * F::epsilon()` -/
 def thr64 : Float := 100.0 * Float.ofBits 0x3cb0000000000000
 
-structure Problem where
-  n : Nat
-  lin : Bool
-  X : List (List Float)
-  env : Env Float
-  st : St Float
+local instance : NatCast Float32 := ⟨Float32.ofNat⟩
+
+/-- the carrier the request asks for (`f=64` / `f=32`): conversions from/to the `f64` bit patterns
+of the protocol (every value of a `f=32` request is representable in `f32`, so both are exact)
+and the three float constants of the Rust code in that type -/
+structure Num (α : Type) where
+  ofF : Float → α
+  toF : α → Float
+  /-- `F::cast(1e-10)` -/
+  tiny : α
+  /-- `F::infinity()` -/
+  inf : α
+  /-- `F::cast(100.) * F::epsilon()` -/
+  thr : α
+
+def num64 : Num Float := ⟨id, id, tiny64, inf64, thr64⟩
+def num32 : Num Float32 :=
+  ⟨Float.toFloat32, Float32.toFloat, tiny64.toFloat32, Float32.ofBits 0x7f800000,
+   (100.0 : Float32) * Float32.ofBits 0x34000000⟩
 
 def parseBools (s : String) : Option (List Bool) :=
   (parseList parseNat s).map fun l => l.map (· != 0)
 
-def parseProblem (toks : List String) : Option Problem := do
+def showBools (l : List Bool) : String := showList (fun b => if b then "1" else "0") l
+
+section
+variable {α : Type} [Add α] [Sub α] [Mul α] [Div α] [Neg α] [LT α] [DecidableLT α]
+  [LE α] [DecidableLE α] [OfNat α 0] [OfNat α 1] [NatCast α]
+
+structure Problem (α : Type) where
+  n : Nat
+  lin : Bool
+  /-- kernel tag evaluated by `weighted_sum`: 0 linear, 1 a tag the matrix does not come from
+  (no decision values asked), 2 `Polynomial(1, 2)` -/
+  meth : Nat
+  X : List (List α)
+  /-- query points for `weighted_sum` -/
+  Q : List (List α)
+  env : Env α
+  st : St α
+
+def parseProblem (N : Num α) (toks : List String) : Option (Problem α) := do
   let n ← argNat toks "n"
   let lin ← argNat toks "lin"
   let X ← argF64s2 toks "X"
@@ -32,20 +63,34 @@ def parseProblem (toks : List String) : Option Problem := do
   let b ← argF64s toks "b"
   let a0 ← argF64s toks "a0"
   let eps ← argF64 toks "eps"
-  if K.length != n || y.length != n || p.length != n || b.length != n || a0.length != n then none else
-  if K.any (·.length != n) then none else
-  let env : Env Float := { K := K, y0 := y, eps := eps, tiny := tiny64, inf := inf64 }
-  some { n := n, lin := lin != 0, X := X, env := env, st := init env a0 p b y }
+  let km := (argNat toks "km").getD 0
+  let nu := (argNat toks "nu").getD 0
+  let meth := (argNat toks "meth").getD (if lin != 0 then 0 else 1)
+  let Q := match arg toks "q" with
+    | some "none" => some []
+    | some s => parseList2 parseF64 s
+    | none => some []
+  let Q ← Q
+  if km > 2 || nu > 1 || meth > 2 then none else
+  let m := if km == 2 then n / 2 else n
+  if km == 2 && n % 2 != 0 then none else
+  if K.length != m || X.length != m || y.length != n || p.length != n || b.length != n || a0.length != n then none else
+  if K.any (·.length != m) then none else
+  let c := fun (l : List Float) => l.map N.ofF
+  let env : Env α := { K := K.map c, y0 := y, eps := N.ofF eps, tiny := N.tiny, inf := N.inf,
+                       nu := nu != 0, kmode := km }
+  some { n := n, lin := lin != 0, meth := meth, X := X.map c, Q := Q.map c, env := env,
+         st := init env (c a0) (c p) (c b) y }
 
-def showBools (l : List Bool) : String := showList (fun b => if b then "1" else "0") l
+def showC (N : Num α) (x : α) : String := showF64c (N.toF x)
 
-def dumpStr (s : St Float) : String :=
-  s!"A={showList showF64c s.alpha}/U={showList showF64c s.ub}/G={showList showF64c s.grad}/H={showList showF64c s.gbar}" ++
-  s!"/S={showList toString s.active}/N={s.nactive}/X={if s.unshrink then 1 else 0}/P={showList showF64c s.p}" ++
-  s!"/Y={showBools s.y}/B={showList showF64c s.bounds}"
+def dumpStr (N : Num α) (s : St α) : String :=
+  s!"A={showList (showC N) s.alpha}/U={showList (showC N) s.ub}/G={showList (showC N) s.grad}/H={showList (showC N) s.gbar}" ++
+  s!"/S={showList toString s.active}/N={s.nactive}/X={if s.unshrink then 1 else 0}/P={showList (showC N) s.p}" ++
+  s!"/Y={showBools s.y}/B={showList (showC N) s.bounds}"
 
 /-- one scripted step; `none` on an ill-formed token -/
-def stepOne (e : Env Float) (s : St Float) (tok : String) : Option (St Float × String) :=
+def stepOne (N : Num α) (e : Env α) (s : St α) (tok : String) : Option (St α × String) :=
   match tok.splitOn "." with
   | ["u", a, b] => do
     let a ← a.toNat?; let b ← b.toNat?
@@ -66,39 +111,57 @@ def stepOne (e : Env Float) (s : St Float) (tok : String) : Option (St Float × 
     let (i, j, opt) := selectWorkingSet e s
     let s' := if opt then s else update e s i j
     some (s', s!"/W={i}.{j}.{if opt then 1 else 0}")
-  | ["h"] => some (s, s!"/R={showF64c (calculateRho e s)}")
+  | ["h"] =>
+    let r := if e.nu then s!"/r={showC N (calculateR e s)}" else ""
+    some (s, s!"/R={showC N (calculateRho e s)}{r}")
   | _ => none
 
-def handleStep (toks : List String) : Option String := do
-  let pr ← parseProblem toks
+def handleStep (N : Num α) (toks : List String) : Option String := do
+  let pr ← parseProblem N toks
   let script ← arg toks "script"
   let steps := splitOn' script ","
-  let rec go (s : St Float) (acc : List String) : List String → Option (List String)
+  let rec go (s : St α) (acc : List String) : List String → Option (List String)
     | [] => some acc.reverse
     | t :: rest => do
-      let (s', extra) ← stepOne pr.env s t
-      go s' ((dumpStr s' ++ extra) :: acc) rest
-  let outs ← go pr.st [dumpStr pr.st] steps
+      let (s', extra) ← stepOne N pr.env s t
+      go s' ((dumpStr N s' ++ extra) :: acc) rest
+  let outs ← go pr.st [dumpStr N pr.st] steps
   some ("ok " ++ " ".intercalate outs)
 
-def handleSolve (toks : List String) : Option String := do
-  let pr ← parseProblem toks
+/-- `KernelMethod::distance` for the tags the harness uses with exactly representable data:
+`Linear` is the dot product, `Polynomial(1, 2)` is `(x·q + 1)^2` -/
+def kval (meth : Nat) (x q : List α) : α :=
+  let d := dotS x q
+  if meth == 2 then (d + 1) * (d + 1) else d
+
+/-- `Svm::weighted_sum(q)` on the published model (`+ 0` canonicalises the sign of an empty sum) -/
+def weightedSumAt (N : Num α) (pr : Problem α) (r : Solved α) (q : List α) : α :=
+  (if pr.lin then dotS r.linear q
+   else weightedSum N.thr r.alpha (r.support.map fun i => kval pr.meth (pr.X.getD i []) q)) + 0
+
+def handleSolve (N : Num α) (toks : List String) : Option String := do
+  let pr ← parseProblem N toks
   let shrink ← argNat toks "shrink"
   let fuel ← argNat toks "fuel"
   let d := (pr.X.headD []).length
-  let r := solve pr.env thr64 (shrink != 0) fuel pr.X d pr.st
+  let r := solve pr.env N.thr (shrink != 0) fuel pr.X d pr.st
   if !r.finished || r.iterations ≥ fuel then some "ok longrun" else
   let w :=
-    if pr.lin then s!"L:{showList showF64c r.linear}"
+    if pr.lin then s!"L:{showList (showC N) r.linear}"
     else
       let rows := r.support.map fun i => pr.X.getD i []
-      "V:" ++ (if rows.isEmpty then "none" else showList2 showF64c rows)
-  some s!"ok it={r.iterations} thr=1 A={showList showF64c r.alpha} rho={showF64c r.rho} obj={showF64c r.obj} {w}"
+      "V:" ++ (if rows.isEmpty then "none" else showList2 (showC N) rows)
+  let rr := if pr.env.nu then showC N r.r else "-"
+  let ws := if pr.Q.isEmpty then "-" else showList (showC N) (pr.Q.map (weightedSumAt N pr r))
+  some s!"ok it={r.iterations} thr=1 A={showList (showC N) r.alpha} rho={showC N r.rho} obj={showC N r.obj} {w} r={rr} ns={nsupport N.thr r.alpha} ws={ws}"
+
+end
 
 def handle (toks : List String) : String :=
+  let f := (argNat toks "f").getD 64
   let r := match toks with
-    | "step" :: rest => handleStep rest
-    | "solve" :: rest => handleSolve rest
+    | "step" :: rest => if f == 32 then handleStep num32 rest else if f == 64 then handleStep num64 rest else none
+    | "solve" :: rest => if f == 32 then handleSolve num32 rest else if f == 64 then handleSolve num64 rest else none
     | _ => none
   r.getD "bad-op"
 
